@@ -679,14 +679,17 @@ def enum_model(items, fixed):
     return {'values': vals, 'during': during, 'under': under, 'after': after}
 
 
-def enum_unit(n, items, fixed):
+def enum_unit(n, items, fixed, fwd=False):
     names = ['E%d_%d' % (n, i) for i in range(len(items))]
     body = []
     for i, it in enumerate(items):
         body.append(names[i] if it is None else '%s = %s' % (names[i], EVALS[it][0]))
     for i, it in enumerate(items):      # the type an enumerator has INSIDE the definition, seen by later enumerators
         body.append('T%d_%d = %s' % (n, i, generic(names[i])))
-    head = 'enum N%d%s { %s };' % (n, (' : ' + fixed.cname) if fixed else '', ', '.join(body))
+    if fwd:     # declared first without enumerators (C23: complete from there on), then defined with the same underlying type
+        head = 'enum N%d : %s; enum N%d : %s { %s };' % (n, fixed.cname, n, fixed.cname, ', '.join(body))
+    else:
+        head = 'enum N%d%s { %s };' % (n, (' : ' + fixed.cname) if fixed else '', ', '.join(body))
     obs = ['sizeof(enum N%d)' % n, '_Alignof(enum N%d)' % n, '(enum N%d)-1 < 0' % n, generic('(enum N%d)0' % n)]
     for i in range(len(items)):
         obs += ['(unsigned long)%s' % names[i], generic(names[i]), 'T%d_%d' % (n, i), 'sizeof(%s)' % names[i]]
@@ -713,6 +716,8 @@ def gen_L4(quick):
     for fi in range(len(FIXED)):
         for s in seqs(forms, 2):
             yield ('L4-enum-fixed', ('L4', s, fi))
+        for s in seqs(forms, 1 if quick else 2):
+            yield ('L4-enum-fixed', ('L4', s, ('fwd', fi)))
 
 
 def enum_witness(texts, ns, target, nobs, fixed=False):
@@ -752,9 +757,10 @@ def enum_job(batch):
     for target in TARGETS:
         exp, got, status, texts, nobs, judge = {}, {}, {}, {}, {}, []
         for n, (_, items, fi) in enumerate(descs):
-            fixed = FIXED[fi] if fi is not None else None
+            fwd = isinstance(fi, tuple)
+            fixed = FIXED[fi[1]] if fwd else FIXED[fi] if fi is not None else None
             exp[n] = enum_expected(items, fixed)
-            texts[n] = enum_unit(n, items, fixed)
+            texts[n] = enum_unit(n, items, fixed, fwd)
             nobs[n] = 4 + 4 * len(items)
             r = srv.compile('\n'.join(texts[n]) + '\n', target=target)
             out['evals'] += 1
@@ -851,7 +857,7 @@ def family(stratum, desc, what, targets):
     """key for a layout finding.  `targets` = set of targets on which this case differs in this way."""
     top = stratum.split('-')[0]
     if desc[0] == 'L4':
-        fixed = 'fixed-' if desc[2] is not None else ''
+        fixed = 'forward-fixed-' if isinstance(desc[2], tuple) else 'fixed-' if desc[2] is not None else ''
         return '%s/%senum-%s' % (top, fixed, what.replace('enum-', ''))
     c = build(desc, 0)
     f = features(c.T)
